@@ -92,12 +92,12 @@ def ddmin_lines(text, pred, keep=lambda ln: not ln.startswith("do ")):
 
 class ScenarioCheck:
     def __init__(self, prop, modules, mode, gen, spec, nontrivial, rule, trusted, assumptions,
-                 known_trigger=None, env_matrix=None, model_must_match=True):
+                 known_trigger=None, env_matrix=None, model_must_match=True, spec_scn=False):
         self.prop = prop; self.modules = modules; self.mode = mode; self.gen = gen
         self.spec = spec; self.nontrivial = nontrivial; self.rule = rule
         self.trusted = trusted; self.assumptions = assumptions
         self.known_trigger = known_trigger or (lambda kf, r, fails: False)
-        self.model_must_match = model_must_match
+        self.model_must_match = model_must_match; self.spec_scn = spec_scn
 
     def evaluate(self, r):
         """r: result record of one scenario -> (mismatch, specfails, crash)"""
@@ -111,7 +111,7 @@ class ScenarioCheck:
                 mism = (0, "<no model output>", impl[0] if impl else "<none>")
             else:
                 mism = first_diff(r["model"], impl)
-        fails = self.spec(impl) if self.spec else []
+        fails = (self.spec(impl, r["scn"]) if self.spec_scn else self.spec(impl)) if self.spec else []
         return (mism, fails, crash[0] if crash else None)
 
     def run(self, tier, seed, replay):
@@ -219,7 +219,7 @@ class ScenarioCheck:
             small = shrink(r, "spec", fails[0][0])
             rr = run_batch(exe, self.mode if lean_ok else None, [small], wd, "fin")
             x = list(rr.values())[0]
-            txt = small + "\n# property statement fails on the implementation's own trace:\n" + "".join("#   %s: %s\n" % f for f in (self.spec(x["impl"] or []) or fails)) + "# implementation trace:\n" + "".join("#   %s\n" % l for l in (x["impl"] or []))
+            txt = small + "\n# property statement fails on the implementation's own trace:\n" + "".join("#   %s: %s\n" % f for f in (self.evaluate(x)[1] or fails)) + "# implementation trace:\n" + "".join("#   %s\n" % l for l in (x["impl"] or []))
             p = vlib.save_replay(prop, seed, "spec", txt)
             print("VIOLATION property=%s replay=%s" % (prop, p))
             violations += len(viol_spec)
